@@ -1,5 +1,5 @@
 // auto-generated: "lalrpop 0.23.1"
-// sha3: 3fd95c8cff2f16243f6e485b29a9af8176aa59105de541895fe9d8f4d4d3701e
+// sha3: 4e6d35773b5efb4d671201c8fc4348ab69ddc1eb41be1dfb7e21dcdeef009d25
 #[allow(unused_extern_crates)]
 extern crate lalrpop_util as __lalrpop_util;
 #[allow(unused_imports)]
@@ -641,7 +641,8 @@ fn __action1<
     (_, __0, _): (usize, &'input str, usize),
 ) -> String
 {
-    { fn f<'a>(x: &'a str) -> &'a str { x } f("q").to_string() }
+    format!("{}{}", '}'.to_string(), { /* } , ; */ let v = vec![(1, 2), (3, 4)]; // }
+ v[1].0.to_string() })
 }
 
 #[allow(unused_variables)]
@@ -653,7 +654,7 @@ fn __action2<
     (_, __0, _): (usize, &'input str, usize),
 ) -> String
 {
-    r",(".to_string()
+    { fn f<'a>(x: &'a str) -> &'a str { x } f("q").to_string() }
 }
 
 #[allow(unused_variables)]
@@ -665,7 +666,7 @@ fn __action3<
     (_, __0, _): (usize, &'input str, usize),
 ) -> String
 {
-    "\n".to_string()
+    "".to_string()
 }
 
 #[allow(unused_variables)]
@@ -677,7 +678,7 @@ fn __action4<
     (_, __0, _): (usize, &'input str, usize),
 ) -> String
 {
-    { fn f<'a>(x: &'a str) -> &'a str { x } f("q").to_string() }
+    "\\".to_string()
 }
 
 #[allow(unused_variables)]
@@ -689,7 +690,7 @@ fn __action5<
     (_, __0, _): (usize, &'input str, usize),
 ) -> String
 {
-    ';'.to_string()
+    '('.to_string()
 }
 
 #[allow(unused_variables)]
@@ -701,7 +702,7 @@ fn __action6<
     (_, __0, _): (usize, &'input str, usize),
 ) -> String
 {
-    ','.to_string()
+    r#",("#.to_string()
 }
 
 #[allow(unused_variables)]
@@ -713,7 +714,7 @@ fn __action7<
     (_, __0, _): (usize, &'input str, usize),
 ) -> String
 {
-    r"{'/*\}".to_string()
+    r###"{a"#,a"###.to_string()
 }
 
 #[allow(unused_variables)]
@@ -725,7 +726,7 @@ fn __action8<
     (_, __0, _): (usize, &'input str, usize),
 ) -> String
 {
-    r#"a{;/*"#.to_string()
+    { let r#type = [1, 2, 3]; r#type[(0 + 1)].to_string() }
 }
 
 #[allow(clippy::type_complexity, dead_code)]
